@@ -374,7 +374,7 @@ def run(ctx) -> int:
 
     quick = ctx.quick
     n_plain, n_const = (240, 130) if quick else (2600, 1400)
-    n_expr = 230 if quick else 1800
+    n_expr = 230 if quick else 2600
     progs = []
     for cse in json.loads((HERE / "corpus" / "cases.json").read_text()):
         progs.append({"id": "corpus/" + cse["id"], "src": cse["src"], "group": "corpus",
